@@ -1008,8 +1008,16 @@ doConvert(
             size_t                  theSize,
             double                  thePrecision)
 {
-    return executionContext.getXObjectFactory().createNumber(
-            theValues[XalanDOMString::size_type(thePrecision <= theSize ? thePrecision : theSize)]);
+    // The last entry has the most digits; use it for any precision
+    // beyond the table (and for NaN).
+    size_t  theIndex = theSize - 1;
+
+    if (thePrecision >= 0.0 && thePrecision < theSize)
+    {
+        theIndex = size_t(thePrecision);
+    }
+
+    return executionContext.getXObjectFactory().createNumber(theValues[theIndex]);
 }
 
 
